@@ -97,6 +97,9 @@ def run(ctx, replay):
     quick = ctx.quick()
     if replay:
         rp = json.load(open(replay))
+        if rp.get("family") == "index+reads":
+            import _c14q
+            return _c14q.replay(ctx, rp)
         if "segment" in rp:
             tf = ctx.path("seg.ndjson")
             vlib.write_jsonl(tf, rp["segment"])
@@ -225,6 +228,11 @@ def run(ctx, replay):
     tot_e += len(ev5) + len(ev6)
     ctx.distinct("index+conc")
     ctx.count("T", index_concurrent_replays=len(reps))
+    # ---- T (index + corpus, family index+reads): the RESULTS of reads made during a concurrent feed (Trace_IndexLin)
+    import _c14q
+    s, e = _c14q.run_leg(ctx, quick, reps)
+    tot_s += s
+    tot_e += e
     ctx.cov["traces_validated_against_impl"] = tot_s
     ctx.cov["evaluations"] = tot_e
     ctx.cov["exhaustive"] = False
